@@ -4,7 +4,7 @@
 id=$1; name=${2:-$1}; wt=/tmp/wt-$id; out=/tmp/out-$id
 set -u
 cd $wt || exit 2
-git stash -q 2>/dev/null; git checkout -q -- . ; git clean -fdq
+git checkout -q -- . ; git clean -fdq
 git apply --check $out/patch.diff || { echo "PATCH DOES NOT APPLY"; exit 1; }
 echo "--- demo WITHOUT change"; (bash $out/demo/run.sh $wt > /tmp/demo-$id-clean.log 2>&1); rc0=$?; echo "exit=$rc0"
 git apply $out/patch.diff
